@@ -549,7 +549,13 @@ func (d *driver) run() {
 			}
 			d.sweep(h)
 			d.cacheCases(h)
+			d.cachePowerLoss(h)
 			d.sealRaces(round, sorted)
+			d.parPasses(round, sorted)
+			d.useLock(sorted)
+			if round == 0 {
+				d.gapWitness(sorted)
+			}
 		}
 	}
 }
